@@ -313,3 +313,101 @@ def rand_merge_sequence(rng, n_docs, depth=3, flags_p=0.25, specials_p=0.2, voca
             d = add_specials(rng, d, docs[:i], p=specials_p, kinds=special_kinds)
         out.append(d)
     return out
+
+
+# ------------------------------------------------------------------ dynamic / structural node kinds
+BUILDABLE_KINDS = ('null', 'xref', 'call', 'bind', 'eval', 'fstr', 'import', 'path')
+STATIC_KINDS = BUILDABLE_KINDS + ('required', 'clear', 'prev', 'append', 'extend', 'include', 'rec')
+FLAGGABLE = ('xref', 'required', 'null', 'clear', 'extend', 'eval', 'call', 'bind', 'path')
+EVAL_CODES = ['1 + 1', '"a" * 3', '[i * 2 for i in range(3)]', 'x = 2\nx ** 5', 'def f(a):\n    return a + 1\nf(41)',
+              'import math\nmath.floor(2.5)', '{"k": (1, 2)}', 'len("abc") or None']
+FSTR_TEXTS = ['plain text', 'sum {1 + 2}', '{"q"!r} and {3.14159:.2f}', "it's {len('ab')}"]
+IMPORTS = ['math.pi', 'os.path.join', 'collections.OrderedDict', 'len']
+
+
+def rand_special(rng, kind, targets=(), in_seq=False, serial=[0]):
+    from .emit import SP, S, L, M
+    serial[0] += 1
+    n = serial[0]
+    if kind == 'null':
+        return SP('null')
+    if kind in ('required', 'clear'):
+        return SP(kind)
+    if kind == 'xref':
+        return SP(rng.choice(['xref', 'xref', 'ref']), path=rng.choice(list(targets)) if targets else 'missing.path')
+    if kind == 'prev':
+        return SP('prev', path=rng.choice(list(targets)) if targets else 'nowhere')
+    if kind in ('append', 'extend'):
+        return SP(kind, args=L([scalar_node(rng, rand_scalar(rng, False)) for _ in range(rng.randrange(0, 3))]))
+    if kind in ('call', 'bind'):
+        func = f'verif_targets.t{n}'
+        r = rng.random()
+        if r < 0.25:
+            return SP(kind, func=func, args=None)
+        if r < 0.6:
+            args = M([[k, scalar_node(rng, rand_scalar(rng, False))] for k in rng.sample(['x', 'y', 0, 1, 'zed'], rng.randrange(0, 4))])
+        else:
+            args = L([scalar_node(rng, rand_scalar(rng, False)) for _ in range(rng.randrange(0, 3))])
+        return SP(kind, func=func, args=args)
+    if kind == 'eval':
+        return SP('eval', code=rng.choice(EVAL_CODES))
+    if kind == 'fstr':
+        t = rng.choice(FSTR_TEXTS)
+        return SP('fstr', text=t)
+    if kind == 'import':
+        return SP('import', name=rng.choice(IMPORTS))
+    if kind == 'include':
+        return SP('include', files=rng.choice(['other.yaml', ['a.yaml', 'sub/b.yaml']]))
+    if kind == 'rec':
+        return SP('rec', file='rec_target.yaml')
+    if kind == 'path':
+        return SP('path', ref=rng.choice([None, 'cwd', 'abs(/opt/data)', 'parent', 'parent(1)', 'file']),
+                  parts=[rng.choice(['x', 'sub dir', '..', 'f.txt']) for _ in range(rng.randrange(1, 3))])
+    raise ValueError(kind)
+
+
+def decorate_specials(rng, doc, kinds, p=0.3, flag_p=0.3, flag_vocab=('prio', 'del', 'new', 'unsafe', 'md')):
+    """replace random scalar leaves of `doc` by special nodes of the given kinds"""
+    import copy
+    from .emit import walk
+    doc = copy.deepcopy(doc)
+    tops = [path_str((k,)) for k, c in doc['items'] if c['t'] != 'sp']
+    tops = [t for t in tops if t]
+    deep = [path_str(q) for q, nd in walk(doc) if q and nd['t'] != 'sp']
+    targets = [t for t in deep if t] or tops
+
+    def rec(n, in_seq):
+        its = n['items']
+        for i in range(len(its)):
+            c = its[i][1] if n['t'] == 'map' else its[i]
+            if c['t'] in ('map', 'seq'):
+                rec(c, c['t'] == 'seq')
+                continue
+            if c['t'] != 'sc' or rng.random() >= p:
+                continue
+            allowed = [k for k in kinds if not (n['t'] == 'seq' and k in ('required', 'clear', 'prev', 'append', 'extend', 'include', 'rec'))]
+            if not allowed:
+                continue
+            kind = rng.choice(allowed)
+            sp = rand_special(rng, kind, targets)
+            if kind in FLAGGABLE and rng.random() < flag_p and not (kind in ('call', 'bind') and sp.get('args') is None and False):
+                for f in rng.sample(list(flag_vocab), rng.randrange(1, 3)):
+                    if f == 'prio':
+                        sp['prio'] = rng.choice([1, -1])
+                    elif f == 'del':
+                        sp['del'] = rng.choice([True, False])
+                    elif f == 'new':
+                        sp['new'] = True
+                    elif f == 'unsafe':
+                        sp['unsafe'] = True
+                    elif f == 'md':
+                        sp['md'] = rand_md(rng)
+                sp['mdsyn'] = rng.choice(['hex', 'brace'])
+                if kind == 'path' and '/' in (sp.get('ref') or ''):
+                    sp['mdsyn'] = 'hex'     # the {{..}} form is only recognised after [a-zA-Z0-9_:.()] tag characters
+            if n['t'] == 'map':
+                its[i][1] = sp
+            else:
+                its[i] = sp
+    rec(doc, False)
+    return doc
